@@ -95,6 +95,14 @@ register("HL_FAIL_RELEASE_NOTIFY", "src/sync/transfer.rs",
 # completed copy: record Completed, wake ALL waiters
 register("HL_DONE_NOTIFY", "src/sync/transfer.rs",
          r"map\.insert\(\s*inode,\s*InodeState::Completed\(dest_path\.to_path_buf\(\)\),\s*\);\s*\}\s*notify\.notify_waiters\(\);\s*(?://[^\n]*\s*)*return Ok\(Some\(result\)\);()", 1, "Z", ["C13"])
+# after the transfers, before the results are judged: the names that already existed are brought onto their group's inode; the shape
+# of the pass (first name with the same file is kept, link under the working name, rename) is Model/Inodes.v relink_group
+register("HL_RELINK_AFTER_TRANSFERS", "src/sync/mod.rs",
+         r"let results = futures::future::join_all\(handles\)\.await;\s*relink_hard_link_groups\(&link_groups\);()", 1, "Z", ["C13"])
+register("HL_RELINK_SHAPE", "src/sync/mod.rs",
+         r"let Some\(\(keep, keep_meta\)\) = kept\.iter\(\)\.find\(\|\(_, k\)\| same_file\(k\)\) else \{\s*kept\.push\(\(name, meta\)\);\s*continue;\s*\};\s*"
+         r"if keep_meta\.ino\(\) == meta\.ino\(\) \{\s*continue;\s*\}\s*let working = crate::temp_file::temp_path_for\(name\);\s*"
+         r"let _ = std::fs::remove_file\(&working\);\s*let linked =\s*std::fs::hard_link\(keep, &working\)\.and_then\(\|\(\)\| std::fs::rename\(&working, name\)\);()", 1, "Z", ["C13"])
 
 # ---- C20: watch loop
 register("WATCH_TICK_MS", "src/sync/watch.rs", r"_ = tokio::time::sleep\(Duration::from_millis\(([0-9]+)\)\) =>", 10, "Z", ["C20"])
